@@ -248,6 +248,15 @@ class Env:
         for c in calls:
             if decoys:
                 self.decoys(q)
+                # ... and every intermediate builder is rendered (str, every dialect context, parameterised) before it is continued:
+                # rendering is an observation, nothing it computes may be remembered into later builders
+                try:
+                    str(q)
+                    for ctx in core.contexts().values():
+                        q.get_sql(ctx)
+                    q.get_parameterized_sql()
+                except Exception:  # noqa
+                    pass
             try:
                 q2 = self.apply(q, c)
                 excs.append("")
